@@ -191,13 +191,16 @@ Proof.
   destruct (SR LEADER s1) as [L1 T1].
   assert (FL : forall (l : list nid) now n, log (fold_left (fun n x => n <| next_idx := aset x (last_idx (log n) + 1) (next_idx n) |>
                              <| match_idx := aset x 0 (match_idx n) |>
-                             <| last_resp := aset x now (last_resp n) |>) l n) = log n /\
+                             <| last_resp := aset x now (last_resp n) |>
+                             <| sr := (sr n) <| trans := adel x (trans (sr n)) |> |>) l n) = log n /\
                    term (fold_left (fun n x => n <| next_idx := aset x (last_idx (log n) + 1) (next_idx n) |>
                              <| match_idx := aset x 0 (match_idx n) |>
-                             <| last_resp := aset x now (last_resp n) |>) l n) = term n).
+                             <| last_resp := aset x now (last_resp n) |>
+                             <| sr := (sr n) <| trans := adel x (trans (sr n)) |> |>) l n) = term n).
   { induction l as [|x l IH]; intros now n; cbn [fold_left]; auto.
     destruct (IH now (n <| next_idx := aset x (last_idx (log n) + 1) (next_idx n) |>
-                        <| match_idx := aset x 0 (match_idx n) |> <| last_resp := aset x now (last_resp n) |>)) as [A B].
+                        <| match_idx := aset x 0 (match_idx n) |> <| last_resp := aset x now (last_resp n) |>
+                        <| sr := (sr n) <| trans := adel x (trans (sr n)) |> |>)) as [A B].
     rewrite A, B. auto. }
   match goal with |- context [fold_left ?f ?l (?n <| last_resp := [] |>)] => destruct (FL l (tnow (set_role LEADER s1)) (n <| last_resp := [] |>)) as [A B] end.
   rewrite A, B. cbn. rewrite L1, T1. reflexivity.
